@@ -139,6 +139,9 @@ func (a *serverApp) init() (err error) {
 			name := strings.ReplaceAll(node.Name(), pathSepRepl, pathSep)
 			stager = newStage(name)
 			stagers[name] = stager
+			// Not ready until recovery is done (Recover only says so itself
+			// once its goroutine gets to run, which a request may beat)
+			stager.Stop(true)
 			go stager.Recover()
 		}
 	}
